@@ -2,7 +2,7 @@
 UNITS = ['u_script', 'u_list', 'u_jobs', 'u_tok', 'u_plan', 'u_exp1', 'u_calc', 'u_exp2', 'u_wait', 'u_fd', 'u_env', 'u_args', 'u_proc', 'u_exp3', 'u_bfd', 'u_blt', 'u_jcmd', 'u_read', 'u_cmpl', 'u_bsh']
 
 PROPERTY_UNITS = {
-    'C03': ['u_list', 'u_tok', 'u_fd', 'u_wait', 'u_script'],
+    'C03': ['u_list', 'u_tok', 'u_fd', 'u_wait', 'u_script', 'u_exp2'],
     'C06': ['u_jobs', 'u_wait', 'u_jcmd'],
     'C05': ['u_script', 'u_list', 'u_jobs', 'u_tok', 'u_plan', 'u_exp1', 'u_calc', 'u_exp2', 'u_wait', 'u_fd', 'u_env', 'u_args', 'u_proc', 'u_exp3', 'u_bfd', 'u_blt', 'u_jcmd', 'u_read', 'u_cmpl', 'u_bsh'],
     'C01': ['u_plan', 'u_exp1', 'u_exp2', 'u_exp3', 'u_tok', 'u_fd'],
